@@ -161,11 +161,18 @@ def builtinDefault : PoolState :=
   { lefts := MICRO_CONVERTER * BUILTIN_LIQ_MULT, rights := MICRO_CONVERTER * BUILTIN_LIQ_MULT,
     priceAccum := 0, liqs := MICRO_CONVERTER * BUILTIN_LIQ_MULT }
 
+/-- a built-in pool counts as missing when it is absent or holds no liquidity at all (`fix:` for F23: before
+    TIP-902 the ERG/SYM pool is an ordinary pool that its only depositor can empty again) -/
+def builtinMissing (pools : AList PoolKey PoolState) (k : PoolKey) : Bool :=
+  match pools.get k with
+  | none => true
+  | some p => p.liqs = 0
+
 /-- `create_builtins` -/
 def createBuiltins (s : State) : State :=
-  let p1 := if (s.pools.get poolMelSym).isNone then s.pools.set poolMelSym builtinDefault else s.pools
-  let p2 := if (p1.get poolMelErg).isNone then p1.set poolMelErg builtinDefault else p1
-  let p3 := if s.tip902 && (p2.get poolErgSym).isNone then p2.set poolErgSym builtinDefault else p2
+  let p1 := if builtinMissing s.pools poolMelSym then s.pools.set poolMelSym builtinDefault else s.pools
+  let p2 := if builtinMissing p1 poolMelErg then p1.set poolMelErg builtinDefault else p1
+  let p3 := if s.tip902 && builtinMissing p2 poolErgSym then p2.set poolErgSym builtinDefault else p2
   { s with pools := p3 }
 
 def outCoinID (tx : Tx) (i : Nat) : CoinID := { txhash := tx.hash, index := i }
